@@ -103,6 +103,8 @@ struct GCase {
     data: Vec<f64>,
     pts: Vec<Vec<f64>>,
     tags: Vec<String>,
+    /// the table is c + prod_i (b_i + a_i x_i) sampled on the grid: (c, [(a_i, b_i)])
+    ml: Option<(f64, Vec<(f64, f64)>)>,
 }
 
 fn nest2(shape: &[usize], d: &[f64]) -> Vec<Vec<f64>> {
@@ -249,14 +251,23 @@ fn emit_generic(st: &mut Stream, c: &GCase, gen: serde_json::Value) {
     let mut terms = vec![m_term];
     // the specification line only when both constructors succeeded (valid grid and table)
     if let (Ok(spv), Ok(ndv)) = (&sp, &nd) {
+        let ml = match &c.ml {
+            None => "None".to_string(),
+            Some((cc, ab)) => format!(
+                "(Some ({}, {}))",
+                coq_f64(*cc),
+                coq_list(ab, |(a, b)| format!("({}, {})", coq_f64(*a), coq_f64(*b)))
+            ),
+        };
         terms.push(format!(
-            "line_sg {} {} {} ({} : @Interp.arr FN {}) {} {} {}",
+            "line_sg {} {} {} ({} : @Interp.arr FN {}) {} {} {} {}",
             id,
             n,
             coq_fll(&c.grid),
             vals,
             n,
             pts,
+            ml,
             coq_pts(spv),
             coq_pts(ndv)
         ));
@@ -285,7 +296,8 @@ fn emit_generic(st: &mut Stream, c: &GCase, gen: serde_json::Value) {
         st.mark_nontrivial(&format!("{:?}", c));
     }
     let desc = json!({"id": id, "family": c.family, "gen": gen, "dim": n, "grid": c.grid, "shape": c.shape,
-                      "values": c.data, "points": c.pts, "query_kinds": c.tags});
+                      "values": c.data, "points": c.pts, "query_kinds": c.tags,
+                      "multilinear_c_ab": c.ml});
     st.case(terms, vec![format!("I {} {}", id, payload)], desc);
 }
 
@@ -357,12 +369,12 @@ fn gen_point(r: &mut Rng, grid: &[Vec<f64>], kind: &str) -> Vec<f64> {
     p
 }
 
-fn gen_values(r: &mut Rng, grid: &[Vec<f64>]) -> (Vec<f64>, &'static str) {
+fn gen_values(r: &mut Rng, grid: &[Vec<f64>]) -> (Vec<f64>, &'static str, Option<(f64, Vec<(f64, f64)>)>) {
     let shape: Vec<usize> = grid.iter().map(|g| g.len()).collect();
     let total: usize = shape.iter().product();
     match r.below(3) {
-        0 => ((0..total).map(|_| r.range(-6400, 6400) as f64 / 64.0).collect(), "dyadic"),
-        1 => ((0..total).map(|_| r.unit_f64() * 200.0 - 100.0).collect(), "arbitrary"),
+        0 => ((0..total).map(|_| r.range(-6400, 6400) as f64 / 64.0).collect(), "dyadic", None),
+        1 => ((0..total).map(|_| r.unit_f64() * 200.0 - 100.0).collect(), "arbitrary", None),
         _ => {
             // affine in each variable: c + prod_i (b_i + a_i x_i)
             let n = grid.len();
@@ -385,7 +397,8 @@ fn gen_values(r: &mut Rng, grid: &[Vec<f64>]) -> (Vec<f64>, &'static str) {
                     idx[k] = 0;
                 }
             }
-            (out, "multilinear")
+            let ab: Vec<(f64, f64)> = a.iter().cloned().zip(b.iter().cloned()).collect();
+            (out, "multilinear", Some((c, ab)))
         }
     }
 }
@@ -403,7 +416,7 @@ fn rand_generic(r: &mut Rng) -> GCase {
         _ => 4,
     };
     let grid: Vec<Vec<f64>> = (0..n).map(|_| { let l = r.range(2, maxlen as i64) as usize; dyadic_grid(r, l) }).collect();
-    let (data, vk) = gen_values(r, &grid);
+    let (data, vk, ml) = gen_values(r, &grid);
     let shape: Vec<usize> = grid.iter().map(|g| g.len()).collect();
     let npts = 6;
     let mut pts = vec![];
@@ -413,7 +426,7 @@ fn rand_generic(r: &mut Rng) -> GCase {
         pts.push(gen_point(r, &grid, k));
         tags.push(k.to_string());
     }
-    GCase { family: format!("random-{}", vk), grid, shape, data, pts, tags }
+    GCase { family: format!("random-{}", vk), grid, shape, data, pts, tags, ml }
 }
 
 fn det_generic() -> Vec<GCase> {
@@ -436,7 +449,7 @@ fn det_generic() -> Vec<GCase> {
         tags.push("outside-below".into());
         pts.push(vec![g[len - 1] + 0.5]);
         tags.push("outside-above".into());
-        out.push(GCase { family: "sweep-1d".into(), grid: vec![g.clone()], shape: vec![len], data: f.clone(), pts: pts.clone(), tags: tags.clone() });
+        out.push(GCase { family: "sweep-1d".into(), grid: vec![g.clone()], shape: vec![len], data: f.clone(), pts: pts.clone(), tags: tags.clone(), ml: None });
         // 2-D: the same axis against a 3-point axis; queries sweep x on the line y = h[1], on y upper boundary and inside
         let h = vec![-0.5, 0.25, 2.0];
         let data: Vec<f64> = (0..len * 3).map(|k| ((k * 11) % 7) as f64 * 0.75 - 2.0).collect();
@@ -448,22 +461,22 @@ fn det_generic() -> Vec<GCase> {
                 t2.push(t.to_string());
             }
         }
-        out.push(GCase { family: "sweep-2d".into(), grid: vec![g.clone(), h], shape: vec![len, 3], data, pts: p2, tags: t2 });
+        out.push(GCase { family: "sweep-2d".into(), grid: vec![g.clone(), h], shape: vec![len, 3], data, pts: p2, tags: t2, ml: None });
     }
     // constructor validation
     let ok2 = vec![0.0, 1.0];
-    out.push(GCase { family: "ctor-unsorted".into(), grid: vec![vec![0.0, 2.0, 1.0]], shape: vec![3], data: vec![1.0, 2.0, 3.0], pts: vec![vec![0.5]], tags: vec!["inside".into()] });
-    out.push(GCase { family: "ctor-repeated".into(), grid: vec![vec![0.0, 1.0, 1.0], ok2.clone()], shape: vec![3, 2], data: vec![1.0; 6], pts: vec![vec![0.5, 0.5]], tags: vec!["inside".into()] });
-    out.push(GCase { family: "ctor-shape".into(), grid: vec![vec![0.0, 1.0, 2.0], ok2.clone()], shape: vec![2, 2], data: vec![1.0; 4], pts: vec![vec![0.5, 0.5]], tags: vec!["inside".into()] });
-    out.push(GCase { family: "ctor-shape".into(), grid: vec![ok2.clone(), ok2.clone(), vec![0.0, 1.0, 3.0]], shape: vec![2, 2, 2], data: vec![1.0; 8], pts: vec![vec![0.5, 0.5, 0.5]], tags: vec!["inside".into()] });
+    out.push(GCase { family: "ctor-unsorted".into(), grid: vec![vec![0.0, 2.0, 1.0]], shape: vec![3], data: vec![1.0, 2.0, 3.0], pts: vec![vec![0.5]], tags: vec!["inside".into()], ml: None });
+    out.push(GCase { family: "ctor-repeated".into(), grid: vec![vec![0.0, 1.0, 1.0], ok2.clone()], shape: vec![3, 2], data: vec![1.0; 6], pts: vec![vec![0.5, 0.5]], tags: vec!["inside".into()], ml: None });
+    out.push(GCase { family: "ctor-shape".into(), grid: vec![vec![0.0, 1.0, 2.0], ok2.clone()], shape: vec![2, 2], data: vec![1.0; 4], pts: vec![vec![0.5, 0.5]], tags: vec!["inside".into()], ml: None });
+    out.push(GCase { family: "ctor-shape".into(), grid: vec![ok2.clone(), ok2.clone(), vec![0.0, 1.0, 3.0]], shape: vec![2, 2, 2], data: vec![1.0; 8], pts: vec![vec![0.5, 0.5, 0.5]], tags: vec!["inside".into()], ml: None });
     // axes with a single point: the specialised interpolators underflow `len - 2`; InterpND pins the axis
-    out.push(GCase { family: "single-point-axis".into(), grid: vec![vec![5.0], ok2.clone()], shape: vec![1, 2], data: vec![1.0, 2.0], pts: vec![vec![5.0, 0.5], vec![5.0, 1.0], vec![4.0, 0.5]], tags: vec!["one-axis-on-line".into(), "corner".into(), "outside-below".into()] });
-    out.push(GCase { family: "single-point-axis".into(), grid: vec![vec![5.0]], shape: vec![1], data: vec![1.0], pts: vec![vec![5.0], vec![], vec![4.0]], tags: vec!["corner".into(), "wrong-length".into(), "outside-below".into()] });
-    out.push(GCase { family: "single-point-axis".into(), grid: vec![vec![5.0], vec![7.0]], shape: vec![1, 1], data: vec![1.0], pts: vec![vec![5.0, 7.0], vec![]], tags: vec!["corner".into(), "wrong-length".into()] });
+    out.push(GCase { family: "single-point-axis".into(), grid: vec![vec![5.0], ok2.clone()], shape: vec![1, 2], data: vec![1.0, 2.0], pts: vec![vec![5.0, 0.5], vec![5.0, 1.0], vec![4.0, 0.5]], tags: vec!["one-axis-on-line".into(), "corner".into(), "outside-below".into()], ml: None });
+    out.push(GCase { family: "single-point-axis".into(), grid: vec![vec![5.0]], shape: vec![1], data: vec![1.0], pts: vec![vec![5.0], vec![], vec![4.0]], tags: vec!["corner".into(), "wrong-length".into(), "outside-below".into()], ml: None });
+    out.push(GCase { family: "single-point-axis".into(), grid: vec![vec![5.0], vec![7.0]], shape: vec![1, 1], data: vec![1.0], pts: vec![vec![5.0, 7.0], vec![]], tags: vec!["corner".into(), "wrong-length".into()], ml: None });
     // NaN in the table: InterpND refuses, the specialised interpolators propagate
-    out.push(GCase { family: "nan-table".into(), grid: vec![ok2.clone(), ok2.clone()], shape: vec![2, 2], data: vec![1.0, f64::NAN, 2.0, 3.0], pts: vec![vec![0.5, 0.5], vec![0.0, 0.0], vec![0.0, 1.0], vec![0.5, 0.0]], tags: vec!["inside".into(), "corner".into(), "corner".into(), "one-axis-on-line".into()] });
+    out.push(GCase { family: "nan-table".into(), grid: vec![ok2.clone(), ok2.clone()], shape: vec![2, 2], data: vec![1.0, f64::NAN, 2.0, 3.0], pts: vec![vec![0.5, 0.5], vec![0.0, 0.0], vec![0.0, 1.0], vec![0.5, 0.0]], tags: vec!["inside".into(), "corner".into(), "corner".into(), "one-axis-on-line".into()], ml: None });
     // NaN / infinite query
-    out.push(GCase { family: "nan-query".into(), grid: vec![vec![0.0, 1.0, 2.0]], shape: vec![3], data: vec![1.0, 2.0, 4.0], pts: vec![vec![f64::NAN], vec![f64::INFINITY], vec![f64::NEG_INFINITY]], tags: vec!["outside-above".into(), "outside-above".into(), "outside-below".into()] });
+    out.push(GCase { family: "nan-query".into(), grid: vec![vec![0.0, 1.0, 2.0]], shape: vec![3], data: vec![1.0, 2.0, 4.0], pts: vec![vec![f64::NAN], vec![f64::INFINITY], vec![f64::NEG_INFINITY]], tags: vec!["outside-above".into(), "outside-above".into(), "outside-below".into()], ml: None });
     out
 }
 
